@@ -167,14 +167,14 @@ fn run(v: usize, input: &str) -> Run {
 }
 
 const CLAUSES: [(&str, &str); 10] = [
-    ("C14 C16 C17 C19", "parse does not panic"),
-    ("C14 C16 C17", "acceptance: success iff the input is a sentence of the toy grammar (no error token, every `;` directly after an `a`; skipped tokens do not matter)"),
+    ("C08 C14 C16 C17 C19", "parse does not panic"),
+    ("C08 C14 C16 C17", "acceptance: success iff the input is a sentence of the toy grammar (no error token, every `;` directly after an `a`; skipped tokens do not matter)"),
     ("C14", "tree leaves are contiguous, in order, start at 0 and end at the input length"),
     ("C14 C16", "leaf texts equal the input slices of their byte ranges (texts concatenate to the input)"),
     ("C14 C16", "leaf token types and ranges equal the reference tokenization (significant, skipped, comments, unmatched gaps)"),
     ("C14", "line/column positions of scanner-produced leaves match the text"),
     ("C14", "line/column positions of unmatched-gap leaves match the text"),
-    ("C17", "semantic actions see exactly the significant tokens, in order (skipped and state-skipped tokens never influence the derivation)"),
+    ("C08 C17", "semantic actions see exactly the significant tokens, in order (skipped and state-skipped tokens never influence the derivation)"),
     ("C17", "every comment is passed to on_comment exactly once, in input order"),
     ("C19", "parse returns: no single parse runs longer than the watchdog limit (30 s)"),
 ];
